@@ -1,1 +1,56 @@
-// hooks for src/tracker_client.rs (none needed yet)
+// hooks for src/tracker_client.rs (private TrackerClient::create_url)
+#![allow(dead_code, unused_imports)]
+use super::*;
+
+// BOUNDED second line for C18 behind the proof of create_url in unit URL (whose byte_serialize / String shims are ASSUMED): the REAL
+// function is run on 3000 torrents (their info-hashes are SHA-1 outputs: every byte value occurs, incl. NUL, '&', '%', '+', bytes
+// >= 0x80) x 4 announce URLs (with and without a query); the result must start with the announce URL unchanged, continue with
+// "?info_hash=" or "&info_hash=" accordingly, and the rest must percent-decode (by the decoder written here) to exactly the 20 bytes.
+#[cfg(all(test, rdest_verif))]
+mod native {
+    use super::*;
+    fn pct_decode(s: &str) -> Option<Vec<u8>> {
+        let b = s.as_bytes();
+        let (mut out, mut i) = (vec![], 0);
+        while i < b.len() {
+            match b[i] {
+                b'%' => {
+                    if i + 3 > b.len() { return None; }
+                    let h = std::str::from_utf8(&b[i + 1..i + 3]).ok()?;
+                    out.push(u8::from_str_radix(h, 16).ok()?);
+                    i += 3;
+                }
+                b'+' => { out.push(b' '); i += 1; }
+                b'&' | b'=' | b'?' | b'#' => return None,     // would end or split the parameter
+                c => { out.push(c); i += 1; }
+            }
+        }
+        Some(out)
+    }
+    #[test]
+    fn native_c18_create_url_many_hashes() {
+        let announces = ["http://tracker.example:6969/announce", "http://tracker.example/announce?passkey=AbC123", "http://T.example/A/b?x=1&y=2", "udp://t/a?"];
+        let mut seen = [false; 256];
+        let mut n = 0;
+        for a in announces {
+            for k in 0..3000u32 {
+                let name = format!("file{}", k);
+                let mut d = format!("d8:announce{}:{}4:infod6:lengthi5e4:name{}:{}12:piece lengthi8e6:pieces20:", a.len(), a, name.len(), name).into_bytes();
+                d.extend(std::iter::repeat(k as u8).take(20));
+                d.extend_from_slice(b"ee");
+                let m = Metainfo::from_bencode(&d).expect("test torrent");
+                let h = *m.info_hash();
+                for b in h.iter() { seen[*b as usize] = true; }
+                let url = TrackerClient::create_url(&m);
+                assert!(url.starts_with(a), "announce URL not kept: {:?} -> {:?}", a, url);
+                let rest = &url[a.len()..];
+                let sep = if a.contains('?') { "&info_hash=" } else { "?info_hash=" };
+                assert!(rest.starts_with(sep), "info_hash parameter not appended with {:?}: {:?}", sep, url);
+                let dec = pct_decode(&rest[sep.len()..]);
+                assert!(dec.as_deref() == Some(&h[..]), "info_hash parameter of {:?} does not decode to the 20 hash bytes {:?}", url, h);
+                n += 1;
+            }
+        }
+        assert!(n == 12000 && seen.iter().all(|s| *s), "not every byte value occurred in the hashes tried");
+    }
+}
